@@ -1,6 +1,8 @@
 package main
 
 import (
+	"go/types"
+
 	"golang.org/x/tools/go/ssa"
 )
 
@@ -68,7 +70,7 @@ func propC17(a *Analysis, r *Registry) {
 	// logTicker
 	lsal := [][2]string{{"f", "t.s.spacingAtLevel(level, t.roundOut)#0"}, {"l", "t.s.spacingAtLevel(level, t.roundOut)#1"}, {"base", "t.s.spacingAtLevel(level, t.roundOut)#2"}}
 	b.Formula("B-C17 siblings", "scale.(logTicker).CountTicks", "scale.(logTicker).CountTicks", []string{"t", "level"}, lsal, 0,
-		"ite(level<0, 9223372036854775807, int(l-f+1))", nil)
+		"ite(level<0, "+maxIntOf(a)+", int(l-f+1))", nil)
 	if fn := b.Fn("B-C17 siblings", "scale.(logTicker).TicksAtLevel"); fn != nil {
 		name := "scale.(logTicker).TicksAtLevel"
 		b.guard("B-C17 siblings", name+"/level>=0", func() {
@@ -393,4 +395,12 @@ func tupleOf(fc *FC, call *ssa.Call, i int) *RF {
 		return at.Args[i]
 	}
 	return fc.X.S.MakeFn(at.Name+"#"+itoa(i), at.Args...)
+}
+
+// maxIntOf: the largest int of the platform the tree is analysed for.
+func maxIntOf(a *Analysis) string {
+	if len(a.W.Pkgs) > 0 && a.W.Pkgs[0].TypesSizes != nil && a.W.Pkgs[0].TypesSizes.Sizeof(types.Typ[types.Int]) == 4 {
+		return "2147483647"
+	}
+	return "9223372036854775807"
 }
